@@ -38,6 +38,8 @@ func main() {
 		os.Exit(runC13(*tier))
 	case "C12":
 		os.Exit(runC12(*tier))
+	case "C19":
+		os.Exit(runC19(*tier))
 	}
 	fmt.Println("INFRA: unknown property", *prop)
 	os.Exit(2)
@@ -243,5 +245,44 @@ func runC12(tier string) int {
 	col.Set("rule", "codec: every (type, table, key, sub-key) over the alphabet {00,01,':',';',ff,'a'} (tables 1-2 bytes without ':', keys 0-2, sub-keys 0-2/3 bytes, raw and versioned keys) through the real encoders: injectivity, collection range and table range contain exactly their own elements, decode(encode)=id, memcomparable codec order and round trip over all pairs of a value pool; store: every ordered pair of distinct (type,name) from an adversarial name pool x 6 operation kinds on the first: logical and physical content of the second unchanged. non-trivial = collections with a range check + operations that did change their own target")
 	col.Sample(map[string]interface{}{"alphabet": "00 01 ':' ';' ff 'a'", "store_names": fmt.Sprintf("%q", storemc.IsoNames)})
 	col.Sample(map[string]interface{}{"operation_kinds": []string{"write", "delete-element", "clear", "clear-recreate", "expire", "trim-pop-all"}})
+	return col.Finish()
+}
+
+func runC19(tier string) int {
+	quick := tier == "quick"
+	col := ev.NewCollector("C19", tier, "model_checking")
+	dl := ev.NewDeadline(ev.EnvDur("VERIF_BUDGET", map[bool]time.Duration{true: 150 * time.Second, false: 20 * time.Minute}[quick]))
+	engines := []string{"mem-skiplist", "pebble"}
+	states, trans := 0, 0
+	exhaustive := true
+	var per []interface{}
+	for _, eng := range engines {
+		depth := 6
+		if quick {
+			depth = 5
+		}
+		if eng != "mem-skiplist" {
+			depth--
+		}
+		s := storemc.Open(storemc.Options{Engine: eng, Policy: common.WaitCompact, DataVer: common.ValueHeaderV1, Leader: false})
+		t0 := time.Now()
+		st := storemc.RunSyncer(s, col, eng, depth, dl)
+		s.Destroy()
+		states += st.States
+		trans += st.Transitions
+		if st.DeadlineHit {
+			exhaustive = false
+		}
+		per = append(per, map[string]interface{}{"engine": eng, "depth": depth, "states": st.States, "transitions": st.Transitions, "restarts": st.Restarts, "deliveries_applied": st.Applied, "deliveries_ignored": st.Ignored, "deadline_hit": st.DeadlineHit, "wall_s": time.Since(t0).Seconds()})
+		fmt.Printf("[C19] %s: states=%d transitions=%d restarts=%d applied=%d ignored=%d depth=%d deadline=%v %.1fs\n", eng, st.States, st.Transitions, st.Restarts, st.Applied, st.Ignored, depth, st.DeadlineHit, time.Since(t0).Seconds())
+	}
+	col.Set("states", states)
+	col.Set("transitions", trans)
+	col.Set("traces_validated_against_impl", trans)
+	col.Set("exhaustive", exhaustive)
+	col.Set("searches", per)
+	col.Set("rule", "state = (store dump, synced positions, receiver log tail since the last snapshot, snapshot image); transitions = deliver source entry i of cluster A or B for every i <= position+1 (stale re-sends, duplicates), overlapping batches [i..j] in one apply batch, one 'middle proposal dropped' delivery of position+2, snapshot (store dump + serialised positions as KVNode.GetSnapshot stores them), restart (restore the image, replay the own log tail with isReplaying=true); each delivery goes through the real KVNode.applyEntry; oracle: data = source prefix applied once each in order and equal to the synced index, position monotone, restart reproduces data and position")
+	col.Sample(map[string]interface{}{"source_log": "5 entries per source cluster, each APPEND <entry number> to one key, one term change, strictly increasing timestamps", "path": []string{"deliver A#1", "deliver A#1", "deliver-batch A#1..3", "snapshot", "deliver A#4", "restart"}})
+	col.Assume = []string{"apply seam: the receive-time filter and raft proposal of Server.ApplyRaftReqs are not on this path", "source timestamps strictly increase (equal timestamps are handled by the documented conflict check)"}
 	return col.Finish()
 }
